@@ -1076,13 +1076,11 @@ theorem write_read_model (S : Schema) (sks : List String) (rows : List Row)
     rw [hlines]
     split
     · rename_i h
-      obtain ⟨l0, lrest, hl0⟩ : ∃ l0 lrest, texts.map (joinWith 9) = l0 :: lrest := by
-        cases h' : texts.map (joinWith 9) with
-        | nil => simp at h'; exact absurd h' htexts_ne
-        | cons a b => exact ⟨a, b, rfl⟩
-      have := (List.all_eq_true.mp h.2) l0 (by rw [hl0]; simp)
-      have h13 : l0.getLast? = some 13 := by simpa using this
-      exact absurd h13 (hnocr l0 (by rw [hlines, hl0]; simp))
+      unfold C02.crlfText at h
+      simp only [Bool.and_eq_true, List.any_eq_true] at h
+      obtain ⟨l, hl, h13⟩ := h.2
+      have h13' : l.getLast? = some 13 := by simpa using h13
+      exact absurd h13' (hnocr l (by rw [hlines]; exact hl))
     · rfl
   have hrecs : (texts.map (joinWith 9)).map (splitOn 9) = texts := by
     rw [List.map_map]
